@@ -443,7 +443,7 @@ func mustScan(db *pebble.DB) []storeutil.Item {
 func run(r *lib.Run) {
 	pnode.Quiet()
 	r.SetRule("sequential: seeded put histories (110..170 puts, capacities 1..3 MB, item sizes 0..5% of capacity, 1 in 5 histories also items up to > capacity, repeated ids, ids sharing a prefix with the node id) with a full DB scan after every put; " +
-		"concurrent: 2..128 goroutines x rounds separated by barriers, scan at each barrier; directed: the k-th arrival at each yield point (put.afterAdd, prune.afterScan) is paused until another put completed, at several fill levels; restart over capacity: filled under 2 MB, reopened with 1 MB, puts at once, any prune pass outside the open call and the puts is held between scan and commit until a put completed. " +
+		"concurrent: 2..128 goroutines x rounds separated by barriers, scan at each barrier; directed: the k-th arrival at each yield point (put.afterAdd, prune.afterScan) is paused until another put completed, at several fill levels; restart over capacity: filled under 2 MB, reopened with 1 MB, puts at once, any prune pass outside the open call and the puts is held between scan and commit until a put completed; many small items: 4..6 MB filled with items of 0..16 bytes (5% of the capacity is thousands of items), the puts around the capacity judged like sequential ones. " +
 		"distinct_nontrivial = sequential histories with >= 1 observed prune + concurrent round sets with a prune + directed schedules whose pause point was reached")
 	r.Assume("bytes held = sum of key+value bytes of every record except the reserved size key, read through a second iterator at quiescent points")
 	r.Assume("ids are 32 bytes (what the protocol produces)")
@@ -491,6 +491,9 @@ func run(r *lib.Run) {
 	}
 	for i := 0; i < r.Pick(4, 40); i++ {
 		runReopenOverCapacity(r, i, base)
+	}
+	for i := 0; i < r.Pick(2, 9); i++ {
+		runManySmall(r, i*2, base) // value sizes 0 / 0..16 / 0..8 in turn
 	}
 	names := []string{}
 	for _, d := range sched {
